@@ -108,6 +108,15 @@ func (s *spSim) apply(op *spOp) {
 			r.Probe("pod-deleted-dir-lingers")
 		}
 		r.Event("pod_del %d keepdir=%v", op.Pod, op.KeepDir)
+	case "pod_term":
+		p := s.pods[op.Pod]
+		if p == nil || !p.visible || p.term {
+			r.OpSkipped()
+			return
+		}
+		s.markTerminating(p)
+		r.Event("pod_term %d", op.Pod)
+		r.Probe("pod-terminating-" + strings.ToLower(p.qos+"x"))
 	case "use_pod":
 		p := s.pods[op.Pod]
 		if p == nil || !p.visible {
